@@ -1,6 +1,7 @@
 package main
 
 import (
+	"os"
 	"fmt"
 	"go/token"
 	"go/types"
@@ -342,6 +343,15 @@ func (c *Ctx) ruleS2(rule string) {
 	c.Min(rule, 10)
 }
 
+func isStepCall(steps []*ssa.Call, in ssa.Instruction) bool {
+	for _, st := range steps {
+		if in == ssa.Instruction(st) {
+			return true
+		}
+	}
+	return false
+}
+
 func (c *Ctx) ruleS3(rule string) {
 	f := c.MustFn(rule, "internal/base", "ForStmt", "Evaluate")
 	if f == nil {
@@ -386,6 +396,34 @@ func (c *Ctx) ruleS3(rule string) {
 	if test != nil {
 		_, again := pathFrom(test.Block().Succs[1].Instrs[0], func(in ssa.Instruction) bool { return in == ssa.Instruction(cond) || in == ssa.Instruction(bodyC) }, nil)
 		c.Check(rule, "ForStmt.Evaluate#false-condition-ends-loop", !again, test.Pos(), "a false condition must end the loop")
+		// and a true condition runs the body: from the true edge nothing but the body follows
+		// (a loop statement without a body block at all, StatementList == nil, excepted)
+		nilBody, _ := x.nilEdges(f, func(v ssa.Value) bool {
+			_, is := x.isFieldLoad(v, "ForStmt", "StatementList")
+			return is
+		})
+		skips := false
+		if t0 := test.Block().Succs[0]; len(t0.Instrs) > 0 {
+			first := t0.Instrs[0]
+			if first != ssa.Instruction(bodyC) {
+				isEnd := func(in ssa.Instruction) bool {
+					if _, isRet := in.(*ssa.Return); isRet {
+						return true
+					}
+					return in == ssa.Instruction(cond) || isStepCall(stepCs, in) || !L.Blocks[in.Block()]
+				}
+				if isEnd(first) {
+					skips = true
+				} else {
+					var hit ssa.Instruction
+					hit, skips = pathExistsEB(f, first, isEnd, nilBody, func(in ssa.Instruction) bool { return in == ssa.Instruction(bodyC) })
+					if skips && os.Getenv("GVERIF_DEBUG") != "" {
+						fmt.Println("DEBUG true-condition-runs-body hit", hit, c.pos(hit.Pos()), "nil edges", len(nilBody))
+					}
+				}
+			}
+		}
+		c.Check(rule, "ForStmt.Evaluate#true-condition-runs-body", !skips, test.Pos(), "when the condition is true the body must be evaluated: a path from the true edge reaches the step, the next test or the end of the loop without it")
 	}
 	isStep := func(in ssa.Instruction) bool {
 		for _, s := range stepCs {
@@ -683,6 +721,28 @@ func (c *Ctx) ruleS4(rule string) {
 	okBind := isK && x.Origin(kb) == recv && x.Origin(set.Call.Args[3]) == ssa.Value(key) && domInstr(key, set) && domInstr(set, bodyC)
 	c.Check(rule, "ForRangeStmt.Evaluate#key-bound-before-body", okBind, set.Pos(), "the key must be stored with SetValue(keyName, key) before the body of the same iteration runs")
 	if L != nil {
+		// every element's body runs: once the key is bound, nothing but the body follows (a
+		// statement without a body block at all, StatementList == nil, excepted; a failing
+		// SetValue returns its error)
+		nilBody, _ := x.nilEdges(f, func(v ssa.Value) bool {
+			_, is := x.isFieldLoad(v, "ForRangeStmt", "StatementList")
+			return is
+		})
+		errEdges := map[edgeKey]bool{}
+		for k := range nilBody {
+			errEdges[k] = true
+		}
+		_, setErrNotNil := x.nilEdges(f, func(v ssa.Value) bool { return x.Origin(v) == ssa.Value(set) || x.Origin(v) == x.Origin(ssa.Value(set)) })
+		for k := range setErrNotNil {
+			errEdges[k] = true
+		}
+		_, skips := pathExistsEB(f, set, func(in ssa.Instruction) bool {
+			if _, isRet := in.(*ssa.Return); isRet {
+				return true
+			}
+			return in == ssa.Instruction(nextC[0]) || !L.Blocks[in.Block()]
+		}, errEdges, func(in ssa.Instruction) bool { return in == ssa.Instruction(bodyC) })
+		c.Check(rule, "ForRangeStmt.Evaluate#every-element-runs-body", !skips, set.Pos(), "after the key is bound the body must be evaluated: a path reaches the next element or the end of the loop without it")
 		c.ruleLoopBodyOutcome(rule, "ForRangeStmt.Evaluate", f, bodyC, L)
 		// break ends, continue goes on
 		sent := func(name string) *ssa.If {
